@@ -6,10 +6,12 @@ TEXTS = {'ab_nl': 'ab\n', 'nl_ab': '\nab', 'uni3': '日本語', 'red_sp': 'red '
 BOUND = datetime.datetime(2020, 1, 1, 0, 0, 0)
 
 
-def export(ctx):
-    out = os.path.join(ctx.work, 'validate_cases.json')
+def export(ctx, family=None):
+    """family: 'thorough' adds SpyneValidate.CasesMore (default: the tier of the run)"""
+    family = family or ctx.tier
+    out = os.path.join(ctx.work, 'validate_cases_%s.json' % family)
     cfg = pc.write_cfg(os.path.join(ctx.work, 'expv.cfg'), ['INIT Init', 'NEXT Next', 'CHECK_DEADLOCK FALSE'])
-    tlc.run('ExportValidate', cfg, ctx.work, env={'OUT_FILE': out})
+    tlc.run('ExportValidate', cfg, ctx.work, env={'OUT_FILE': out, 'FAMILY': family}, timeout=1800)
     d = json.load(open(out))
     d['cases'].sort(key=lambda c: json.dumps(c, sort_keys=True))
     return d
